@@ -202,6 +202,42 @@ let feeds_of (s : string) : (n * n list) list =
   if s = "-" then []
   else List.map (fun f -> match String.split_on_char '=' f with [ k; d ] -> (n_of_string k, bytes_of_hex d) | _ -> failwith "feed") (split_on ';' s)
 
+let run_planneriter toks =
+  match toks with
+  | [ cur; tgt ] ->
+      let cur = index_of cur and tgt = index_of tgt in
+      let ((stripped, cnt), total) = strip_in_place cur tgt in
+      let ops = reorder_ops_iter cur stripped in
+      "OK " ^ string_of_n cnt ^ " " ^ string_of_n total ^ " | " ^ pr_index stripped ^ " | " ^ pr_ops ops
+  | _ -> failwith "planneriter: bad case"
+
+(* ---- ChunkIndex keyed by HashSum bytes ---- *)
+let run_hashkey toks =
+  match toks with
+  | [ l; ops ] ->
+      let l = n_of_string l in
+      let idx = ref [] in
+      let out = Buffer.create 256 in
+      List.iter
+        (fun o ->
+          let kind = o.[0] and rest = String.sub o 1 (String.length o - 1) in
+          match kind with
+          | 'a' -> (match String.split_on_char ':' rest with
+              | [ h; sz; offs ] -> idx := hci_add l !idx (hs_from (bytes_of_hex h)) (n_of_string sz) (nlist_of offs)
+              | _ -> failwith "hashkey add")
+          | 'c' -> Buffer.add_string out (if hci_contains l !idx (hs_from (bytes_of_hex rest)) then "1" else "0")
+          | 'r' ->
+              let h = hs_from (bytes_of_hex rest) in
+              (match hci_get !idx (takeN l h) with
+               | Some loc -> Buffer.add_string out ("[" ^ string_of_n loc.l_size ^ ":" ^ pr_nlist loc.l_offs ^ "]")
+               | None -> Buffer.add_string out "[-]");
+              idx := hci_remove l !idx h
+          | _ -> failwith "hashkey op")
+        (split_on '/' ops);
+      let sorted = List.sort compare (List.map (fun (k, loc) -> hex_of_bytes k ^ ":" ^ string_of_n loc.l_size ^ ":" ^ pr_nlist loc.l_offs) !idx) in
+      "OK " ^ Buffer.contents out ^ " | " ^ (if sorted = [] then "-" else String.concat ";" sorted)
+  | _ -> failwith "hashkey"
+
 let run_clone toks =
   match toks with
   | [ prior; cidx; oidx; fault; seeds; arch ] ->
@@ -475,6 +511,8 @@ let dispatch (line : string) : string =
   | "stream" :: r -> run_stream r
   | "spec" :: r -> run_spec r
   | "planner" :: r -> run_planner r
+  | "planneriter" :: r -> run_planneriter r
+  | "hashkey" :: r -> run_hashkey r
   | "clone" :: r -> run_clone r
   | "protoenc" :: r -> run_protoenc r
   | "protodec" :: r -> run_protodec r
